@@ -649,11 +649,28 @@ def translate_discr(repo=None):
         sec2, cont = tr_offset_from_spaces(get_func(tree, '_offset_from_spaces'))
     finally:
         SRC = old
+    # attributes of the inferred range: taken from discr_kwargs, else INHERITED from the domain
+    fnr = get_func(tree, '_resize_discr')
+    inherited = []
+    for attr in ('dtype', 'impl', 'exponent', 'weighting'):
+        if not any(same(st, "%s = discr_kwargs.pop('%s', discr.%s)" % (attr, attr, attr)) for st in fnr.body):
+            raise TranslateError("%s: _resize_discr: expected `%s = discr_kwargs.pop('%s', discr.%s)` "
+                                 "(the inferred range must inherit the domain's %s)" % (SRC_D, attr, attr, attr, attr))
+        inherited.append(attr)
+    if not any(isinstance(st, ast.Assign) and same(st, 'tspace = tensor_space(newshp, dtype=dtype, impl=impl, '
+                                                      'exponent=exponent, weighting=weighting)') for st in fnr.body):
+        raise TranslateError('%s: _resize_discr: the range tensor space is no longer built from '
+                             'dtype/impl/exponent/weighting' % SRC_D)
+    attrs = ('(* dtype, impl, exponent, weighting of the inferred range: discr_kwargs.pop(attr, discr.attr) *)\n'
+             'Definition range_attr {A : Type} (kw : option A) (dom : A) : A :=\n'
+             '  match kw with Some v => v | None => dom end.\n'
+             'Definition inherited_attrs : list nat := %s%%nat.   (* count of checked attributes *)\n'
+             % ('[' + '; '.join(str(i) for i in range(len(inherited))) + ']'))
     return '\n'.join([
         '(* GENERATED by translate/padding.py from %s -- do not edit. *)' % SRC_D,
         'From Coq Require Import ZArith QArith Bool List.',
         'From Verif Require Import Base.Num.',
-        'Local Open Scope Z_scope.', '', num, cont, sec1 + sec2])
+        'Import ListNotations.', 'Local Open Scope Z_scope.', '', num, cont, attrs, sec1 + sec2])
 
 
 def translate(repo=None):
